@@ -135,7 +135,17 @@ package kmip
 //@   recv c
 //@   results r0
 //@   ensures r0 != nil && r0.N != nil && bigsign(r0.N) == 1 && len(bigmag(r0.N)) == curvebytes(c)
+//@   ensures 0 < r0.BitSize && r0.BitSize <= 521 && (r0.BitSize+7)/8 == curvebytes(c)
 //@   pure
+
+// FillBytes panics when the magnitude does not fit the buffer
+//@ extern (*math/big.Int).FillBytes
+//@   recv x
+//@   params buf
+//@   results r0
+//@   requires x != nil && len(bigmag(x)) <= len(buf)
+//@   ensures len(r0) == len(buf)
+//@   modifies elems(buf)
 
 //@ func (*PrivateKey).ECDSA
 //@   requires key != nil
